@@ -77,15 +77,15 @@ def topic_conformance(c, cfg, subs, buffered):
     d = vlib.scratch('topic-')
     p = os.path.join(d, 'in.json')
     json.dump({'subs': subs, 'buffered': buffered, 'sequences': [[label_act(l) for l in s] for s in maximal]}, open(p, 'w'))
-    res = vlib.run_harness(['topic', p], timeout=1500)
-    results = res['extra']['results']
-    bad = 0
-    for seq_labels, rr in zip(maximal, results):
+    def execute(seq_list, mult):
+        json.dump({'subs': subs, 'buffered': buffered, 'sequences': [[label_act(l) for l in s] for s in seq_list]}, open(p, 'w'))
+        return vlib.run_harness(['topic', p], timeout=1500, env_extra={'VERIF_SETTLE_MULT': str(mult)})['extra']['results']
+
+    def judge(seq_labels, rr):
+        """None if the observations are explained, else (class, message, replay, signature)."""
         if rr.get('panic'):
-            bad += 1
-            c.violation('real Topic: a goroutine panics during the call starts %s: %s' % (seq_labels, rr['panic']),
-                        {'sequence': seq_labels}, {'prop': 'C17', 'class': 'topic-panic'})
-            continue
+            return ('real Topic: a goroutine panics during the call starts %s: %s' % (seq_labels, rr['panic']),
+                    {'sequence': seq_labels}, {'prop': 'C17', 'class': 'topic-panic'})
         if not rr['settled']:
             raise vlib.Inconclusive('goroutine status did not settle')
         cur = set(start)
@@ -103,12 +103,24 @@ def topic_conformance(c, cfg, subs, buffered):
             cur = {n for n in cur if obs_of(nodes[n], subs) == key}
             c.evaluations += 1
             if not cur:
-                bad += 1
                 wedge = 'close' if o['inClose'] else 'other'
-                c.violation('real Topic: after the call starts %s the goroutines settle with calls in progress %s, Close in progress %s, results %s - no settled state of the specification matches'
-                            % ([x for x in seq_labels[:i + 1]], o['inCall'], o['inClose'], o['lastRet']),
-                            {'sequence': seq_labels[:i + 1], 'obs': o}, {'prop': 'C17', 'class': 'topic-behaviour', 'wedge': wedge})
-                break
+                return ('real Topic: after the call starts %s the goroutines settle with calls in progress %s, Close in progress %s, results %s - no settled state of the specification matches'
+                        % ([x for x in seq_labels[:i + 1]], o['inCall'], o['inClose'], o['lastRet']),
+                        {'sequence': seq_labels[:i + 1], 'obs': o}, {'prop': 'C17', 'class': 'topic-behaviour', 'wedge': wedge})
+        return None
+
+    results = execute(maximal, 1)
+    suspects = [s for s, rr in zip(maximal, results) if judge(s, rr) is not None]
+    bad = 0
+    if suspects:
+        # an observation taken before the goroutines were really blocked looks like a mismatch: the suspects are
+        # executed again with a six times longer settle window, and only what fails again is reported
+        c.extra['topic_reexecuted'] = c.extra.get('topic_reexecuted', 0) + len(suspects)
+        for s, rr in zip(suspects, execute(suspects, 6)):
+            v = judge(s, rr)
+            if v is not None:
+                bad += 1
+                c.violation(*v)
     c.traces += len(maximal)
     c.distinct += len(maximal)
     c.sample({'topic_sequence': maximal[len(maximal) // 2]})
@@ -141,7 +153,7 @@ def run(c):
             raise
         c.evaluations += res.get('evaluations', 0)
         c.extra.setdefault('race_detector_runs', []).append(cmd)
-    c.assumptions += ['goroutine status is observed after it settled (2 ms stable); a status that does not settle is inconclusive',
+    c.assumptions += ['goroutine status is observed after it settled (7.5 ms stable; a mismatching sequence is executed again with a 45 ms window before it is reported); a status that does not settle is inconclusive',
                       'data races: the race detector is the oracle, schedules below the granularity of the model are only sampled']
     c.extra['rule'] = 'every maximal sequence of call starts of the Topic state graph on the real Topic; seeded climit schedules; fresh-process global-storage orders; cancelled fleets'
 
